@@ -33,6 +33,8 @@ def generate(rng, tier="quick"):
         g = scn["config"]["psets"][0]["group"]
         for nd in scn["config"]["nodes"]:
             nd["entropy"] = gen.gen_entropy(rng, g, 0.6)
+            if rng.random() < 0.06:
+                nd["entropy"]["falsy"] = True      # callable, but bool(entropy_f) is False
         if rng.random() < 0.25:
             # an application bug calls start() again: refused, and must not touch the entropy source
             k = rng.randrange(2)
@@ -45,7 +47,8 @@ def generate(rng, tier="quick"):
         # direct drive
         width = rng.choice([1, 2, 3, 7, 8, 9, 255, 256, 257, 1000, 65535, 65536, 65537,
                             rng.randrange(1, 1 << 20), rng.randrange(1, 1 << 64), (1 << 64) - 1, 1 << 64,
-                            rng.randrange(1, 1 << 200)])
+                            rng.randrange(1, 1 << 200), rng.randrange(1 << 2039, 1 << 2048), 1 << 2048,
+                            rng.randrange(1 << 4090, 1 << 4100), rng.randrange(1 << 8000, 1 << 8200)])
         start = rng.choice([0, 0, 1, rng.randrange(1 << 16), -5])
         mode = rng.choice(["uniform", "boundary", "redraws", "zeros", "counter", "target"])
         ent = {"mode": mode, "seed": rng.randrange(1 << 40), "q": str(width), "k": rng.randrange(1, 6),
@@ -191,6 +194,12 @@ def execute(scn):
                     w.flag("sampler-raised", "unbiased_randrange(%d,%d) raised %s" % (a, b, type(e).__name__), fn="randrange")
                 return w
             w.log("drive", "val", sim.dg(str(v)))
+            got = sum(nn for nn, _ in ent.calls[c0:])
+            need = ((b - a - 1).bit_length() + 7) // 8
+            if got < need:
+                w.flag("insufficient-entropy", "unbiased_randrange over a range of %d bits requested only %d byte(s) "
+                       "from the entropy function (at least %d are needed for a uniform result)"
+                       % ((b - a - 1).bit_length(), got, need), fn="randrange")
             if not (a <= v < b):
                 w.flag("out-of-range", "unbiased_randrange(%d, %d) returned %d under a %s stream" % (a, b, v, ent.mode),
                        fn="randrange", mode=ent.mode)
@@ -382,6 +391,11 @@ class SessionOracle(Hooks):
                     w.probe("ed-provenance")
             else:
                 w.probe("int-range")
+                got = sum(c[0] for c in calls)
+                need = ((g.q - 1).bit_length() + 7) // 8
+                if got < need:
+                    self.flag(w, "insufficient-entropy", "start() requested %d byte(s) for a %d-bit group order"
+                              % (got, g.q.bit_length()), family="int")
                 if n.entropy.mode in ("boundary", "redraws"):
                     w.probe("drive:" + n.entropy.mode)
                 if len(calls) > 1:
